@@ -109,7 +109,7 @@ def run_worker(specs, hashseed="0", cwd=None, lang="C.UTF-8", timeout=600):
     env["PYTHONHASHSEED"] = str(hashseed)
     env["LANG"] = lang
     env["LC_ALL"] = lang
-    env["PYTHONPATH"] = "/repo/src:" + os.path.dirname(os.path.dirname(os.path.dirname(os.path.abspath(__file__))))
+    env["PYTHONPATH"] = os.environ.get("VT_SRC", "/repo/src") + ":" + os.path.dirname(os.path.dirname(os.path.dirname(os.path.abspath(__file__))))
     env["PYTHONDONTWRITEBYTECODE"] = "1"
     inp = "".join(json.dumps(s) + "\n" for s in specs)
     p = subprocess.run([sys.executable, "-m", "vt.env.procmatrix"], input=inp, capture_output=True, text=True, cwd=cwd, env=env, timeout=timeout)
